@@ -103,6 +103,26 @@ def dumpTables (f : Nat) : M String := do
     out := out ++ [(name, String.intercalate "" rows)]
   pure (canon out)
 
+/-- `get_class_constraints_duals()`: the multiplier (scripted token) of the constraint stored at each cell; `0` cells stay `0` -/
+def dumpDualTables (ev : EvalSt) (f : Nat) : M String := do
+  let fr ← getF f
+  let mut out : List (String × String) := []
+  let mut failed := false
+  for (name, tab) in fr.tables do
+    let mut rows : List String := []
+    for r in tab do
+      let mut cells : List String := []
+      for c in r do
+        match c with
+        | some h =>
+          match evalDual ev h with
+          | .ok v => cells := cells ++ [showRat v]
+          | .error _ => failed := true
+        | none => cells := cells ++ ["0"]
+      rows := rows ++ ["[" ++ String.intercalate ";" cells ++ "]"]
+    out := out ++ [(name, String.intercalate "" rows)]
+  if failed then pure "err ValueError" else pure (canon out)
+
 def dumpSent : M String := do
   let w ← get
   let mut items : List String := []
@@ -625,6 +645,7 @@ def stepCore (e : Env) (line : String) : Env × String :=
         | none => pure (e, "skipped")
     | ["dump.class", f] => let hf ← lookup e f; let (s, _) ← runM e (dumpClass hf); pure (e, s)
     | ["dump.tables", f] => let hf ← lookup e f; let (s, _) ← runM e (dumpTables hf); pure (e, s)
+    | ["dump.dualtables", f] => let hf ← lookup e f; let (s, _) ← runM e (dumpDualTables e.ev hf); pure (e, s)
     | ["dump.part", b] => let hb ← lookup e b; let (s, _) ← runM e (dumpPart hb); pure (e, s)
     | ["dump.cvx", gs, fs, ms] =>
       -- the real CvxpyWrapper's `_list_of_solver_constraints` (kinds, and residual of every equality / inequality at
@@ -684,6 +705,31 @@ def stepCore (e : Env) (line : String) : Env × String :=
         | some ds => String.intercalate "," ((ds.zip sizes).map fun (d, sz) => if sz == 0 then "empty" else toString d)
         | none => "none"
       pure (e, "kinds=" ++ String.intercalate "," kinds ++ " vals={" ++ String.intercalate "," vals ++ "} duals=" ++ dualStr)
+    | ["dump.cvxheur", gs, fs, wcs, tols, wss] =>
+      -- contract of the dimension-reduction interface of the cvxpy back-end: one added constraint `objective >= wc - tol`
+      -- (printed as the residual `(wc - tol) - objective` at the given F), then `Minimize <W, G>` for each given W, under
+      -- all the constraints
+      let parseRow (r : String) : Option (List Rat) := if r.isEmpty then some [] else (r.splitOn ",").mapM parseRat
+      let some G := ((gs.drop 2).toString.splitOn ";").mapM parseRow | throw "bad G"
+      let some F := parseRow (fs.drop 2).toString | throw "bad F"
+      let some wc := parseRat (wcs.drop 3).toString | throw "bad wc"
+      let some tol := parseRat (tols.drop 4).toString | throw "bad tol"
+      let some Ws := ((wss.drop 2).toString.splitOn "|").mapM (fun m => (m.splitOn ";").mapM parseRow) | throw "bad W"
+      let w := e.w
+      let objIdx : Nat := match w.objective with
+        | some h => (match w.exs[h]? with | some o => o.leaf.getD 0 | none => 0)
+        | none => 0
+      let items : List Item := (List.range w.sent.length).filterMap (fun k =>
+        match (w.sent[k]? : Option Sent) with
+        | some (Sent.cons _) => some (Item.cons k)
+        | some (Sent.psd h) => (w.psds[h]?).map (fun m => Item.psd k m.n)
+        | none => none)
+      let ncons := (emit items).length + 1
+      let prep := showRat ((wc - tol) - F.getD objIdx 0)
+      let dotW (W : List (List Rat)) : Rat :=
+        (List.range w.nP).foldl (fun acc i => (List.range w.nP).foldl (fun acc j => acc + ((W.getD i []).getD j 0) * ((G.getD i []).getD j 0)) acc) 0
+      let objs := Ws.map fun W => s!"Minimize:{showRat (dotW W)}:{ncons}"
+      pure (e, "prep=" ++ prep ++ " heur=" ++ String.intercalate " " objs)
     | ["dump.sent"] => let (s, _) ← runM e dumpSent; pure (e, s)
     | ["dump.pt", p] => let hp ← lookup e p; let (s, _) ← runM e (do pure (showPDict (← getP hp).d)); pure (e, s)
     | ["dump.ex", x] => let hx ← lookup e x; let (s, _) ← runM e (do pure (showEDict (← getE hx).d)); pure (e, s)
